@@ -127,9 +127,15 @@ void RealFree(void *base, size_t pad) {
   free(base);
 }
 
+uint64_t g_hard_cap = 0;
+
 void *Allocate(size_t size, size_t align, bool nothrow) {
   if (g_alloc_yield) g_alloc_yield(0);
   if (size == 0) size = 1;
+  if (g_hard_cap && size > g_hard_cap) {
+    if (nothrow) return nullptr;
+    throw std::bad_alloc();
+  }
   if (!g_cfg.active && !g_cfg.perturb) {
     void *p;
     if (align > 16) {
@@ -308,6 +314,8 @@ void AllocEnd(bool free_leftovers) {
     }
   }
 }
+
+void AllocSetHardCap(uint64_t bytes) { g_hard_cap = bytes; }
 
 void AllocFlushQuarantine() {
   for (int i = 0; i < g_quar_n; ++i) free(g_quar[i].base);
